@@ -12,23 +12,40 @@ Definition unloadable (acc : cid -> bool) (w : content) : bool :=
   | CEmpty => false
   end.
 
+(** The guards of the open findings are decided per poll against what the
+    specification knows at that moment ([m]: everything seen so far, from the history alone). *)
+
+(** the specification asks for at least one accepted call in a step that looks at [obs] *)
+Definition demands (acc : cid -> bool) (m : seen_map) (obs : list (sid * sobs)) : bool :=
+  existsb (fun so => negb (is_nil (expected_calls (latest_valid acc (m (fst so)))
+                                                  (latest_valid acc (snd so :: m (fst so)))))) obs.
+
 (** C18-F5: a listing contains a blob that cannot be loaded (the whole poll is
-    abandoned: nothing else of the bucket is updated or unloaded) *)
-Definition blob_ev_guard_F5 (acc : cid -> bool) (e : blob_event) : bool :=
+    abandoned: nothing else of the bucket is updated or unloaded) while something of
+    the bucket has to be loaded, updated or unloaded *)
+Definition blob_ev_guard_F5 (acc : cid -> bool) (nk : nat) (m : seen_map) (e : blob_event) : bool :=
   match snd e with
-  | BList l => existsb (fun kw => unloadable acc (snd kw)) l
+  | BList l => existsb (fun kw => unloadable acc (snd kw)) l && demands acc m (blob_view nk e)
   | _ => false
   end.
 
-(** C18-F6: the endpoint names one blob and that blob does not exist (any more) *)
-Definition blob_ev_guard_F6 (e : blob_event) : bool :=
+(** C18-F6: the endpoint names one blob, that blob does not exist (any more) and its rule set is loaded *)
+Definition blob_ev_guard_F6 (acc : cid -> bool) (m : seen_map) (e : blob_event) : bool :=
   match snd e with
-  | BSingle _ CAbsent => true
+  | BSingle k CAbsent => is_some (latest_valid acc (m (bsid false (fst e) k)))
   | _ => false
   end.
 
-Definition blob_guard_F5 (acc : cid -> bool) (h : list blob_event) : bool := existsb (blob_ev_guard_F5 acc) h.
-Definition blob_guard_F6 (h : list blob_event) : bool := existsb blob_ev_guard_F6 h.
+Fixpoint blob_guards_from (g : seen_map -> blob_event -> bool) (nk : nat) (m : seen_map) (h : list blob_event) : bool :=
+  match h with
+  | [] => false
+  | e :: r => g m e || blob_guards_from g nk (seen_step m {| t_obs := blob_view nk e; t_calls := [] |}) r
+  end.
+
+Definition blob_guard_F5 (acc : cid -> bool) (nk : nat) (h : list blob_event) : bool :=
+  blob_guards_from (blob_ev_guard_F5 acc nk) nk seen_empty h.
+Definition blob_guard_F6 (acc : cid -> bool) (nk : nat) (h : list blob_event) : bool :=
+  blob_guards_from (blob_ev_guard_F6 acc) nk seen_empty h.
 
 (** C18-F1: some poll reports a blob as removed that an earlier poll saw valid
     (only then is OnDeleted called, with the wrong source id) *)
@@ -329,13 +346,58 @@ Qed.
 Definition valid_entries (l : list (nat * content)) : list (nat * cid) :=
   flat_map (fun kw => match snd kw with CValid c => [(fst kw, c)] | _ => [] end) l.
 
-Lemma read_all_ok l :
-  existsb (fun kw => unloadable acc (snd kw)) l = false -> read_all l = BOk (valid_entries l).
+Definition unreadable (w : content) : bool := match w with CInvalid | CAbsent => true | _ => false end.
+
+Lemma read_all_readable l :
+  existsb (fun kw => unreadable (snd kw)) l = false -> read_all l = BOk (valid_entries l).
 Proof.
   induction l as [|[k w] r IH]; simpl; intro H; [reflexivity|].
   apply orb_false_iff in H as [H1 H2]. destruct w; simpl in H1; try discriminate.
   - apply IH. exact H2.
   - rewrite (IH H2). reflexivity.
+Qed.
+
+Lemma read_all_unreadable l :
+  existsb (fun kw => unreadable (snd kw)) l = true -> read_all l = BErr BInternal.
+Proof.
+  induction l as [|[k w] r IH]; simpl; intro H; [discriminate|].
+  destruct w; simpl in H; try reflexivity.
+  - apply IH. exact H.
+  - rewrite (IH H). reflexivity.
+Qed.
+
+Lemma read_all_ok l :
+  existsb (fun kw => unloadable acc (snd kw)) l = false -> read_all l = BOk (valid_entries l).
+Proof.
+  intro H. apply read_all_readable. destruct (existsb (fun kw => unreadable (snd kw)) l) eqn:E; [|reflexivity].
+  apply existsb_exists in E as [[k w] [Hin Hw]].
+  assert (existsb (fun kw => unloadable acc (snd kw)) l = true); [|congruence].
+  apply existsb_exists. exists (k, w). split; [exact Hin|]. simpl in *. destruct w; try discriminate; reflexivity.
+Qed.
+
+(** a listing whose only unloadable blobs are rejected ones, processed when nothing has to change *)
+Lemma blob_load_quiet b : forall rs st,
+  (forall k c, In (k, c) rs -> st k = Some c \/ accepts O c = false) ->
+  let h := blob_load O b st rs in
+  h_st h = st /\ (forall p, In p (h_calls h) -> p_ok p = false).
+Proof.
+  induction rs as [|[k c] r IH]; intros st H; simpl; [split; [reflexivity | intros p []]|].
+  assert (Hr : forall k c, In (k, c) r -> st k = Some c \/ accepts O c = false) by (intros; apply H; right; assumption).
+  destruct (H k c (or_introl eq_refl)) as [Hk|Hc].
+  - rewrite Hk, Nat.eqb_refl. apply IH. exact Hr.
+  - destruct (st k) as [x|]; [destruct (Nat.eqb x c); [apply IH; exact Hr|]|]; rewrite Hc; simpl;
+      (split; [reflexivity | intros p [<-|[]]; reflexivity]).
+Qed.
+
+Lemma calls_on_rejected s ps : (forall p, In p ps -> p_ok p = false) -> calls_on s ps = [].
+Proof.
+  intro H. apply calls_on_nil_notin. intros p Hp Hok. rewrite (H p Hp) in Hok. discriminate.
+Qed.
+
+Lemma expected_nil_eq a b : expected_calls a b = [] -> a = b.
+Proof.
+  destruct a as [x|], b as [y|]; simpl; try discriminate; try reflexivity.
+  destruct (Nat.eqb x y) eqn:E; [|discriminate]. apply Nat.eqb_eq in E. congruence.
 Qed.
 
 Lemma valid_entries_in k c l : In (k, c) (valid_entries l) <-> In (k, CValid c) l.
@@ -518,7 +580,7 @@ Lemma blob_event_ok fixed md S m v e :
   inv2 S m -> small S -> single_inv md S -> (fixed = true \/ vinv v S) ->
   conforms md e = true ->
   (fixed = true \/ existsb (fun k => v (fst e) k && gone_in k (snd e)) (seq 0 nk) = false) ->
-  blob_ev_guard_F5 acc e = false -> blob_ev_guard_F6 e = false ->
+  blob_ev_guard_F5 acc nk m e = false -> blob_ev_guard_F6 acc m e = false ->
   let x := blob_watch O fixed nk (fst e) (S (fst e)) (snd e) in
   let S' := bst_set S (fst e) (h_st x) in
   let st := {| t_obs := blob_view nk e; t_calls := h_calls x |} in
@@ -605,6 +667,11 @@ Proof.
     unfold conforms in Hconf; cbn [fst snd] in Hconf. apply andb_true_iff in Hconf as [Hconf Hlt]. apply andb_true_iff in Hconf as [Hmd Hnd].
     apply nodup_natb_NoDup in Hnd. rewrite forallb_forall in Hlt.
     destruct (md b) as [?|] eqn:Emd; [discriminate|]. unfold blob_ev_guard_F5 in Hg5; cbn [snd] in Hg5.
+    set (o := fun k => match lookup_content k l with Some w => obs_of_content w | None => SGone end).
+    change (blob_view nk (b, BList l)) with (map (fun k => (bkey b k, o k)) (seq 0 nk)) in Hg5 |- *.
+    destruct (existsb (fun kw => unloadable acc (snd kw)) l) eqn:Eun.
+    2:{ (* every listed blob can be loaded *)
+    rename Eun into Hg5'. clear Hg5. rename Hg5' into Hg5.
     assert (Hload : forall k w, In (k, w) l -> unloadable acc w = false).
     { intros k w Hin. destruct (unloadable acc w) eqn:E; [|reflexivity].
       assert (existsb (fun kw => unloadable acc (snd kw)) l = true); [|congruence].
@@ -629,13 +696,92 @@ Proof.
       pose proof (Hload k w (lookup_content_in k w l El)) as Hu.
       destruct w; simpl in Hu; try discriminate; simpl; [reflexivity|].
       apply negb_false_iff in Hu. rewrite Hu. reflexivity.
-    + intros k j Hm. congruence.
+    + intros k j Hm. congruence. }
+    (* a blob cannot be loaded, but nothing of the bucket has to change: the abandoned poll is right *)
+    simpl andb in Hg5.
+    assert (Hsame : forall k, k < nk -> latest_valid acc (o k :: m (bkey b k)) = latest_valid acc (m (bkey b k))).
+    { intros k Hk. symmetry. apply expected_nil_eq.
+      destruct (expected_calls (latest_valid acc (m (bkey b k))) (latest_valid acc (o k :: m (bkey b k)))) eqn:E; [reflexivity|].
+      exfalso. assert (demands acc m (map (fun k => (bkey b k, o k)) (seq 0 nk)) = true); [|congruence].
+      unfold demands. apply existsb_exists. exists (bkey b k, o k). split.
+      - apply in_map_iff. exists k. split; [reflexivity | apply in_seq; lia].
+      - cbn [fst snd]. rewrite E. reflexivity. }
+    (* what the provider does: nothing that is accepted, and it remembers what it remembered *)
+    assert (Hquiet : h_st (blob_watch O fixed nk b (S b) (BList l)) = S b /\
+                     forall p, In p (h_calls (blob_watch O fixed nk b (S b) (BList l))) -> p_ok p = false).
+    { unfold blob_watch. simpl blob_fetch.
+      destruct (existsb (fun kw => unreadable (snd kw)) l) eqn:Ebad.
+      - rewrite (read_all_unreadable l Ebad). split; [reflexivity | intros p []].
+      - rewrite (read_all_readable l Ebad). cbn [h_st h_calls].
+        assert (Hrem : blob_removed nk (S b) (valid_entries l) = []).
+        { apply filter_nil. intros k Hk. apply in_seq in Hk. apply andb_false_iff.
+          destruct (S b k) as [x|] eqn:Es; [|left; reflexivity]. right. apply negb_false_iff.
+          destruct (existsb (Nat.eqb k) (map fst (valid_entries l))) eqn:E; [reflexivity|]. exfalso.
+          assert (Hk' : k < nk) by lia. specialize (Hsame k Hk'). rewrite <- (Hinv b k), Es in Hsame.
+          unfold o in Hsame. destruct (lookup_content k l) as [w|] eqn:El; [|simpl in Hsame; discriminate].
+          destruct w; simpl in Hsame; try discriminate.
+          + assert (existsb (fun kw => unreadable (snd kw)) l = true); [|congruence].
+            apply existsb_exists. exists (k, CAbsent). split; [apply lookup_content_in; exact El | reflexivity].
+          + assert (existsb (fun kw => unreadable (snd kw)) l = true); [|congruence].
+            apply existsb_exists. exists (k, CInvalid). split; [apply lookup_content_in; exact El | reflexivity].
+          + assert (existsb (Nat.eqb k) (map fst (valid_entries l)) = true); [|congruence].
+            apply existsb_exists. exists k. split; [|apply Nat.eqb_refl]. apply in_map_iff. exists (k, c). split; [reflexivity|].
+            apply valid_entries_in. apply lookup_content_in. exact El. }
+        unfold blob_updated. rewrite Hrem. simpl blob_remove. cbn [h_err hres_nop h_st h_calls]. simpl app.
+        apply blob_load_quiet. intros k c Hin. apply valid_entries_in in Hin.
+        assert (Hk : k < nk). { apply Nat.ltb_lt. apply Hlt. apply in_map_iff. exists (k, CValid c). auto. }
+        specialize (Hsame k Hk). unfold o in Hsame. rewrite (lookup_content_nodup k (CValid c) l Hnd Hin) in Hsame.
+        simpl in Hsame. fold acc. destruct (acc c) eqn:Ec; [left | right; reflexivity].
+        rewrite (Hinv b k). rewrite <- Hsame. reflexivity. }
+    destruct Hquiet as [Q1 Q2]. rewrite Q1.
+    set (calls := h_calls (blob_watch O fixed nk b (S b) (BList l))) in *.
+    assert (Hnocall : forall s0, calls_on s0 calls = []) by (intro s0; apply calls_on_rejected; exact Q2).
+    assert (HSsame : forall b' k, bst_set S b (S b) b' k = S b' k).
+    { intros b' k. destruct (Nat.eq_dec b' b) as [->|Hb]; [rewrite bst_set_same | rewrite bst_set_other by exact Hb]; reflexivity. }
+    assert (Hnd' : NoDup (map fst (map (fun k => (bkey b k, o k)) (seq 0 nk)))).
+    { rewrite map_map. simpl. apply NoDup_map_inj; [intros x y H; apply bsid_inj in H; tauto | apply seq_NoDup]. }
+    splits.
+    + apply step_ok_iff; cbn [t_obs t_calls]. splits; [exact Hnd'| |].
+      * intros q Hq Hok. exfalso. apply (calls_on_in q _ Hq Hok). apply Hnocall.
+      * intros s0 o' Hin. apply in_map_iff in Hin as [k [E Hk]]. inversion E; subst. apply in_seq in Hk.
+        rewrite Hnocall, Hsame by lia. symmetry. apply expected_same.
+    + intros b' k. rewrite HSsame. unfold seen_step; cbn [t_obs].
+      destruct (Nat.eq_dec b' b) as [->|Hb].
+      * destruct (Nat.lt_ge_cases k nk) as [Hk|Hk].
+        -- rewrite (seen_fold_in _ _ (bkey b k) (o k) Hnd').
+           ++ rewrite Hsame by exact Hk. apply Hinv.
+           ++ apply in_map_iff. exists k. split; [reflexivity | apply in_seq; lia].
+        -- rewrite seen_fold_notin; [apply Hinv|].
+           rewrite map_map. simpl. intro X. apply in_map_iff in X as [j [E Hj]].
+           apply bsid_inj in E as [_ [_ E]]. subst j. apply in_seq in Hj. lia.
+      * rewrite seen_fold_notin; [apply Hinv|].
+        rewrite map_map. simpl. intro X. apply in_map_iff in X as [j [E Hj]].
+        apply bsid_inj in E as [_ [E _]]. congruence.
+    + intros b' k Hk. rewrite HSsame. apply Hsmall. exact Hk.
+    + intros b' k j Hm Hj. rewrite HSsame. eapply Hsingle; eauto.
+    + destruct Hv as [Hf|Hv]; [left; exact Hf | right].
+      intros b' k Hs. rewrite HSsame in Hs. unfold mk_step; cbn [fst snd].
+      destruct (Nat.eqb b' b) eqn:Eb; [|apply Hv; exact Hs].
+      apply Nat.eqb_eq in Eb. subst b'.
+      destruct (valid_in k (BList l)) eqn:Ev; [reflexivity|].
+      destruct (gone_in k (BList l)) eqn:Eg; [|apply Hv; exact Hs]. exfalso.
+      destruct (Nat.lt_ge_cases k nk) as [Hk|Hk]; [|apply Hs; apply Hsmall; exact Hk].
+      specialize (Hsame k Hk). rewrite <- (Hinv b k) in Hsame. unfold o in Hsame. simpl in Eg.
+      destruct (lookup_content k l) as [w|]; [destruct w; try discriminate|]; simpl in Hsame; congruence.
   - (* the URL names blob k *)
     unfold conforms in Hconf; cbn [fst snd] in Hconf. apply andb_true_iff in Hconf as [Hmd Hk]. apply Nat.ltb_lt in Hk.
     destruct (md b) as [k0|] eqn:Emd; [|discriminate]. apply Nat.eqb_eq in Hmd. subst k0.
     assert (Hothers : forall j, j <> k -> S b j = None) by (intros j Hj; eapply Hsingle; eauto).
     unfold blob_watch. destruct w as [| | |c]; simpl blob_fetch; cbv iota.
-    + unfold blob_ev_guard_F6 in Hg6; cbn [snd] in Hg6. discriminate.
+    + (* no such blob: an internal error; right as long as nothing is loaded for it *)
+      unfold blob_ev_guard_F6 in Hg6; cbn [fst snd] in Hg6.
+      assert (Hnone : latest_valid acc (m (bkey b k)) = None).
+      { unfold bkey. destruct (latest_valid acc (m (bsid false b k))); [discriminate | reflexivity]. }
+      apply (Hnop true).
+      * intro j. reflexivity.
+      * intros j Hs. simpl. destruct (Nat.eqb k j) eqn:E; [reflexivity|].
+        apply Nat.eqb_neq in E. exfalso. apply Hs. apply Hothers. congruence.
+      * right. exists k, SGone. split; [reflexivity|]. simpl. symmetry. exact Hnone.
     + (* empty *)
       assert (Hgone0 : forall j, j < nk -> ~ In j (map fst (@nil (nat * cid))) -> gone_in j (BSingle k CEmpty) = true)
         by (intros j _ _; simpl; destruct (Nat.eqb k j); reflexivity).
@@ -772,7 +918,8 @@ Lemma blob_trace_ok_from fixed md : forall h S m v,
   inv2 S m -> small S -> single_inv md S -> (fixed = true \/ vinv v S) ->
   forallb (conforms md) h = true ->
   fixed = true \/ blob_guard_F1_from nk v h = false ->
-  blob_guard_F5 acc h = false -> blob_guard_F6 h = false ->
+  blob_guards_from (blob_ev_guard_F5 acc nk) nk m h = false ->
+  blob_guards_from (blob_ev_guard_F6 acc) nk m h = false ->
   trace_ok_from acc m (blob_trace_from fixed S h) = true /\
   inv2 (fst (blob_run_from O fixed nk S h)) (fold_left seen_step (blob_trace_from fixed S h) m).
 Proof.
@@ -780,8 +927,8 @@ Proof.
   - split; [reflexivity | exact Hinv].
   - rewrite blob_trace_from_cons. simpl trace_ok_from. simpl fold_left.
     simpl in Hconf. apply andb_true_iff in Hconf as [Hc1 Hc2].
-    unfold blob_guard_F5 in Hg5. simpl in Hg5. apply orb_false_iff in Hg5 as [Hg5a Hg5b].
-    unfold blob_guard_F6 in Hg6. simpl in Hg6. apply orb_false_iff in Hg6 as [Hg6a Hg6b].
+    simpl in Hg5. apply orb_false_iff in Hg5 as [Hg5a Hg5b].
+    simpl in Hg6. apply orb_false_iff in Hg6 as [Hg6a Hg6b].
     assert (Hg1a : fixed = true \/ existsb (fun k => v (fst e) k && gone_in k (snd e)) (seq 0 nk) = false).
     { destruct Hg1 as [Hf|Hg1]; [left; exact Hf | right]. simpl in Hg1. apply orb_false_iff in Hg1. tauto. }
     assert (Hg1b : fixed = true \/ blob_guard_F1_from nk (mk_step v e) r = false).
@@ -790,7 +937,7 @@ Proof.
     cbv zeta in E1, E2, E3, E4, E5. rewrite E1. simpl.
     change (fst (blob_run_from O fixed nk S (e :: r)))
       with (fst (blob_run_from O fixed nk (bst_set S (fst e) (h_st (blob_watch O fixed nk (fst e) (S (fst e)) (snd e)))) r)).
-    apply (IH _ _ (mk_step v e)); assumption.
+    apply (IH _ _ (mk_step v e)); try assumption.
 Qed.
 
 Definition blob_trace (fixed : bool) (h : list blob_event) : list tstep := blob_trace_from fixed bst_empty h.
@@ -800,7 +947,7 @@ Definition blob_trace (fixed : bool) (h : list blob_event) : list tstep := blob_
 Theorem blob_trace_ok fixed md h :
   forallb (conforms md) h = true ->
   fixed = true \/ blob_guard_F1 nk h = false ->
-  blob_guard_F5 acc h = false -> blob_guard_F6 h = false ->
+  blob_guard_F5 acc nk h = false -> blob_guard_F6 acc nk h = false ->
   trace_ok acc (blob_trace fixed h) = true.
 Proof.
   intros Hc H1 H5 H6.
@@ -814,7 +961,7 @@ Qed.
 Theorem blob_known_latest_valid fixed md h b k :
   forallb (conforms md) h = true ->
   fixed = true \/ blob_guard_F1 nk h = false ->
-  blob_guard_F5 acc h = false -> blob_guard_F6 h = false ->
+  blob_guard_F5 acc nk h = false -> blob_guard_F6 acc nk h = false ->
   fst (blob_run O fixed nk h) b k = latest_valid acc (seen_of (blob_trace fixed h) (bkey b k)).
 Proof.
   intros Hc H1 H5 H6.
@@ -832,7 +979,7 @@ Definition bh_F1 : list blob_event :=
   [(0, BList [(0, CValid 1); (1, CValid 2)]); (0, BList [(0, CValid 1)])].
 
 Theorem blob_F1_refuted :
-  exists h, blob_guard_F1 2 h = true /\ blob_guard_F5 (accepts O_all) h = false /\ blob_guard_F6 h = false /\
+  exists h, blob_guard_F1 2 h = true /\ blob_guard_F5 (accepts O_all) 2 h = false /\ blob_guard_F6 (accepts O_all) 2 h = false /\
             forallb (conforms 2 (fun _ => None)) h = true /\
             trace_ok (accepts O_all) (blob_trace O_all 2 false h) <> true /\
             trace_ok (accepts O_all) (blob_trace O_all 2 true h) = true /\
@@ -844,7 +991,7 @@ Definition bh_F5 : list blob_event :=
   [(0, BList [(0, CValid 1); (1, CValid 2); (2, CValid 3)]); (0, BList [(0, CInvalid); (1, CValid 4)])].
 
 Theorem blob_F5_refuted :
-  exists h, blob_guard_F5 (accepts O_all) h = true /\ blob_guard_F6 h = false /\
+  exists h, blob_guard_F5 (accepts O_all) 3 h = true /\ blob_guard_F6 (accepts O_all) 3 h = false /\
             forallb (conforms 3 (fun _ => None)) h = true /\
             trace_ok (accepts O_all) (blob_trace O_all 3 true h) <> true /\
             active_of (blob_trace O_all 3 true h) (bkey 0 1) = Some 2 /\
@@ -854,7 +1001,7 @@ Proof. exists bh_F5. vm_compute. splits; try reflexivity. discriminate. Qed.
 Definition bh_F6 : list blob_event := [(0, BSingle 0 (CValid 1)); (0, BSingle 0 CAbsent)].
 
 Theorem blob_F6_refuted :
-  exists h, blob_guard_F6 h = true /\ blob_guard_F5 (accepts O_all) h = false /\
+  exists h, blob_guard_F6 (accepts O_all) 1 h = true /\ blob_guard_F5 (accepts O_all) 1 h = false /\
             forallb (conforms 1 (fun _ => Some 0)) h = true /\
             trace_ok (accepts O_all) (blob_trace O_all 1 true h) <> true /\
             active_of (blob_trace O_all 1 true h) (bkey 0 0) = Some 1.
@@ -867,7 +1014,7 @@ Definition bh_nonvacuous : list blob_event :=
 
 Example blob_nonvacuous :
   forallb (conforms 3 (fun b => if Nat.eqb b 1 then Some 0 else None)) bh_nonvacuous = true /\
-  blob_guard_F5 (accepts O_rej3) bh_nonvacuous = false /\ blob_guard_F6 bh_nonvacuous = false /\
+  blob_guard_F5 (accepts O_rej3) 3 bh_nonvacuous = false /\ blob_guard_F6 (accepts O_rej3) 3 bh_nonvacuous = false /\
   flat_map (fun st => filter p_ok (t_calls st)) (blob_trace O_rej3 3 true bh_nonvacuous) =
   [ {| p_kind := KCreated; p_src := bkey 0 0; p_cid := Some 1; p_ok := true |};
     {| p_kind := KCreated; p_src := bkey 0 1; p_cid := Some 2; p_ok := true |};
